@@ -11,7 +11,19 @@ fn main() {
         let Some(m) = line.strip_prefix("mod ").and_then(|s| s.strip_suffix(';')) else {
             continue;
         };
-        let src = fs::read_to_string(format!("src/{m}.rs")).unwrap();
+        let mut src = fs::read_to_string(format!("src/{m}.rs")).unwrap();
+        // generated harness lists are pulled in with include!("gen_*.rs")
+        let mut extra = String::new();
+        let mut scan = src.as_str();
+        while let Some(pos) = scan.find("include!(\"") {
+            scan = &scan[pos + "include!(\"".len()..];
+            if let Some(end) = scan.find('"') {
+                if let Ok(inc) = fs::read_to_string(format!("src/{}", &scan[..end])) {
+                    extra.push_str(&inc);
+                }
+            }
+        }
+        src.push_str(&extra);
         let mut rest = src.as_str();
         while let Some(pos) = rest.find("proof! {") {
             rest = &rest[pos + "proof! {".len()..];
